@@ -1028,7 +1028,7 @@ def rule_H(toks, au, h, lockflags=False, fname=None):
         # free / path calls of effectful shims:  name(..)  /  Path::name(..)
         if t.kind == "id" and t.text in h.fx and i + 1 < len(toks) and is_p(toks[i + 1], "(") and not (i > 0 and (is_p(toks[i - 1], ".") or is_id(toks[i - 1], "fn"))):
             k = match_close(toks, i + 1)
-            empty = (k == i + 2)
+            empty = (k == i + 2) or is_p(toks[k - 1], ",")
             ins = toks_of(("" if empty else ", ") + h.fxarg)
             for q, x in enumerate(ins):
                 if q > 0 and x.ws == "" and is_p(ins[q - 1], ","):
